@@ -478,6 +478,40 @@ func (fc *fileCtx) rewriteStmt(s ast.Stmt, ftype *ast.FuncType) []srcEdit {
 				}
 			}
 		}
+		// return a, b, H(..): the helper (one result) is in tail position among otherwise pure results;
+		// each of its returns becomes the caller's return with that value in place
+		if len(x.Results) > 1 {
+			idx := -1
+			var call *ast.CallExpr
+			for i, r := range x.Results {
+				if c, ok := ast.Unparen(r).(*ast.CallExpr); ok && fc.candidateCall(c) != nil {
+					if idx >= 0 {
+						idx = -2
+						break
+					}
+					idx, call = i, c
+				} else if !isPureExpr(info, r) {
+					idx = -2
+					break
+				}
+			}
+			if idx >= 0 {
+				if h := fc.candidateCall(call); h != nil && h.results == 1 {
+					var pre, post []string
+					for i, r := range x.Results {
+						t := fc.text(r.Pos(), r.End())
+						if i < idx {
+							pre = append(pre, t)
+						} else if i > idx {
+							post = append(post, t)
+						}
+					}
+					if txt, ok := fc.inlineTailWith(h, call, pre, post); ok {
+						return []srcEdit{{fc.off(x.Pos()), fc.off(x.End()), txt + fc.nz.lineDir(x.End())}}
+					}
+				}
+			}
+		}
 		if es := fc.hoistFrom(s, x.Results, s.Pos(), s.End()); es != nil {
 			return es
 		}
@@ -790,7 +824,12 @@ func (fc *fileCtx) substitutable(h *helper, param types.Object, arg ast.Expr) bo
 					if fn, isFn := sel.Obj().(*types.Func); isFn {
 						if sig, isSig := fn.Type().(*types.Signature); isSig && sig.Recv() != nil {
 							if _, ptrRecv := sig.Recv().Type().(*types.Pointer); ptrRecv {
-								ok = false // implicit &p
+								// implicit &(operand), unless the operand already is a pointer
+								if tv, has := hinfo.Types[x.X]; !has || tv.Type == nil {
+									ok = false
+								} else if _, opPtr := tv.Type.Underlying().(*types.Pointer); !opPtr {
+									ok = false
+								}
 							}
 						}
 					}
@@ -1865,4 +1904,55 @@ func (nz *normalizer) collectBoolHoists() map[string][]srcEdit {
 func hoistKey(p *Program, a *ast.AssignStmt) string {
 	po := p.Fset.Position(a.Pos())
 	return fmt.Sprintf("%s:%d:%s", po.Filename, po.Line, exprString(a.Lhs[0]))
+}
+
+// inlineTailWith: `return pre..., H(args), post...` with pure pre/post: the
+// helper's body is spliced in and each `return e` of it becomes
+// `return pre..., e, post...`.
+func (fc *fileCtx) inlineTailWith(h *helper, call *ast.CallExpr, pre, post []string) (string, bool) {
+	bare := false
+	ast.Inspect(h.f.Body, func(x ast.Node) bool {
+		if _, isLit := x.(*ast.FuncLit); isLit {
+			return false
+		}
+		if r, ok := x.(*ast.ReturnStmt); ok && len(r.Results) != 1 {
+			bare = true
+		}
+		return true
+	})
+	if bare {
+		return "", false
+	}
+	// the pure results must not mention a name the helper's parameters substitute... they are caller text,
+	// and the helper's own variables carry fresh names, so no capture is possible
+	pl := fc.plan(h, call, call.Pos())
+	if pl == nil {
+		return "", false
+	}
+	decls, named, _ := pl.namedResultDecls(fc)
+	hinfo := h.f.Info()
+	body := pl.renderWith(h.f.Body.Lbrace+1, h.f.Body.Rbrace, named, false, func(x *ast.ReturnStmt, vals string, parts []string, defers string, sub func(x, y token.Pos) string) string {
+		v := vals
+		if len(x.Results) == 1 {
+			if tv, has := hinfo.Types[x.Results[0]]; has && tv.Value != nil {
+				v = "(" + pl.rtypes[0] + ")(" + vals + ")"
+			}
+		}
+		all := append(append(append([]string{}, pre...), v), post...)
+		if defers != "" {
+			// evaluate the result, run the helper's deferred calls, then return
+			tmp := fc.nz.fresh("t")
+			return "{ var " + tmp + " " + pl.rtypes[0] + " = " + v + "; " + defers + "return " + strings.Join(append(append(append([]string{}, pre...), tmp), post...), ", ") + " }"
+		}
+		return "return " + strings.Join(all, ", ")
+	})
+	var b strings.Builder
+	b.WriteString(fc.nz.lineDir(call.Pos()))
+	b.WriteString("{\n" + pl.bindings() + decls)
+	b.WriteString(fc.nz.lineDir(h.f.Body.Lbrace))
+	b.WriteString(body)
+	b.WriteString(fc.nz.lineDir(call.Pos()))
+	b.WriteString("}")
+	fc.nz.inlined[h.f.Name]++
+	return b.String(), true
 }
